@@ -218,10 +218,42 @@ def match_files(rule_path, input_path, mode="list", search="all", only_addr=Fals
     return ("ok", res)
 
 
+SPELL_MOD = 4  # one generated rule document in four is written in another YAML spelling (the same document: it loads to the same object)
+NOEOL_MOD = 8  # one listing in eight is written without the final newline / with blank lines after the last instruction
+
+
+def spelled_rule_text(doc):
+    """The rule file of a generated document: block style as a rule; for one document in four (chosen by its content) flow style,
+    mixed style, an explicit document start with a comment in front, or a deep indentation.  Raw text is written as it is."""
+    if isinstance(doc, str):
+        return doc
+    text = dump_yaml(doc)
+    sel = zlib.crc32(text.encode("utf-8", "replace"))
+    if not SPELL_MOD or sel % SPELL_MOD != 2:
+        return text
+    kw = [dict(default_flow_style=True), dict(default_flow_style=None), dict(default_flow_style=False, explicit_start=True), dict(default_flow_style=False, indent=6, width=30),
+          dict(default_flow_style=True, width=40)][(sel // SPELL_MOD) % 5]
+    alt = yaml.dump(doc, Dumper=_Dumper, sort_keys=False, allow_unicode=True, **kw)
+    if kw.get("explicit_start"):
+        alt = "# rule written by hand\n" + alt + "...\n"
+    try:
+        same = yaml.safe_load(alt) == doc
+    except yaml.YAMLError:
+        same = False
+    return alt if same else text
+
+
 def match(doc, listing_text, mode="list", search="all", only_addr=False, macros=None, want_regex=False):
     """doc: python object (dumped as YAML) or raw YAML text; listing_text: objdump-format text."""
     s = scratch()
-    rp = s.write("rule.yaml", rule_text(doc))
+    rp = s.write("rule.yaml", spelled_rule_text(doc))
+    if NOEOL_MOD and isinstance(listing_text, str) and listing_text.endswith("\n"):
+        # the end of the file is presentation: no newline after the last line, or blank lines after it
+        sel_ = zlib.crc32(listing_text.encode("utf-8", "replace")) % NOEOL_MOD
+        if sel_ == 3:
+            listing_text = listing_text.rstrip("\n")
+        elif sel_ == 5:
+            listing_text = listing_text + "\n\n"
     if CRLF_MOD and isinstance(listing_text, str) and "\r" not in listing_text and zlib.crc32(listing_text.encode("utf-8", "replace")) % CRLF_MOD == 0:
         # the same listing as a tool on Windows would have saved it: line ends are presentation, the tree under test reads
         # listings with universal newlines (one listing in eight, chosen by its content, so every mode sees the same file)
@@ -242,7 +274,7 @@ def stream_of(listing_text, config=None):
 
 def compile_rule(doc, macros=None):
     s = scratch()
-    rp = s.write("rule.yaml", rule_text(doc))
+    rp = s.write("rule.yaml", spelled_rule_text(doc))
     try:
         y2r = Yaml2Regex(rp, macros_from_terminal=macros)
         rx = y2r.produce_regex()
